@@ -110,6 +110,10 @@ func NewProtocol[G algebra.PrimeGroupElement[G, S], S algebra.PrimeFieldElement[
 		if s == nil {
 			return *new(G), proofs.ErrInvalidArgument.WithMessage("homomorphism input cannot be nil")
 		}
+		if s.Arity().Uint64() != generatorsVector.Arity().Uint64() {
+			// a decoded response may carry any number of components; ScalarDiagonal would index past them
+			return *new(G), proofs.ErrInvalidArgument.WithMessage("homomorphism input has %d components, expected %d", s.Arity().Uint64(), generatorsVector.Arity().Uint64())
+		}
 		return generatorsVector.ScalarDiagonal(s).CoDiagonal(), nil
 	}
 
